@@ -465,6 +465,10 @@ func (gen *generator) getIndex(index ast.Constant) gep.Index {
 		}
 	case *ast.PtrToIntExpr:
 		return gep.Index{HasVal: false}
+	case ast.ConstantExpr:
+		// any other constant expression; as in ir/constant/expr_memory.go, the
+		// index has no concrete value.
+		return gep.Index{HasVal: false}
 	case *ast.UndefConst:
 		return gep.Index{HasVal: false}
 	case *ast.PoisonConst:
